@@ -236,6 +236,14 @@ def c02_3(ctx):
     ctx.check(l1 is not l2 and g.dominates(exit1, h2), 'phase:pass2-after-pass1', fn.site(l2),
               'byte generation starts only after the first pass has finished',
               'the generate_bytes loop is not dominated by the end of the first pass loop')
+    res = resolver(ctx, fn, inline=False)
+    L = l2.target.id
+    for n, _ in calls_to(ctx, fn, {LWB + '.generate_bytes'}):
+        fcl = filter_facts_at(ctx, fn, n, res)
+        lits = [l for c in fcl for l in c]
+        ctx.check(all(len(c) == 1 for c in fcl) and set(lits) == {('isinstance', L, 'LineWithBytes', True)}, 'phase:every-byte-line-generated', fn.site(n),
+                  'bytes are generated for every byte-producing line of the list (muted or not): that is where labels are resolved and values checked',
+                  f'generate_bytes is called only when {describe_facts(fcl)}')
 
 
 def c02_4(ctx):
@@ -321,6 +329,37 @@ def c02_5(ctx):
         if c.name not in reviewed:
             ctx.err(f'size:{c.name}', f'{c.module.relpath}:{c.node.lineno}', 'byte-producing line class is in the reviewed table',
                     'new LineWithBytes subclass: add its size/emission agreement to rule C02.5')
+    # emission and evaluation happen for every line of the class: they are selected by nothing except the class's own
+    # caches (`if self._x is None`), the kind of a listed item, and the reserved size itself
+    def _lit_ok(l):
+        if l[0] == 'isnone':
+            return isinstance(l[1], str) and l[1].startswith('self._')
+        if l[0] == 'isinstance':
+            return True
+        if l[0] in ('ge', 'eq', 'le', 'ne', 'gt', 'lt') and isinstance(l[1], tuple):
+            try:
+                return all(v in ('self.byte_size', 'len(self._bytes)') for v, _ in l[1][0])
+            except Exception:
+                return False
+        return False
+    n_sites = 0
+    for c in lwb.all_subclasses():
+        gb = c.methods.get('generate_bytes')
+        if gb is None:
+            continue
+        res_ = resolver(ctx, gb)
+        for n in ast.walk(gb.node):
+            if isinstance(n, ast.Call) and isinstance(n.func, ast.Attribute) and n.func.attr in ('extend', '_append_byte', 'get_value', 'get_bytes', 'append'):
+                n_sites += 1
+                fcl = filter_facts_at(ctx, gb, n, res_)
+                bad = [l for cl in fcl for l in cl if not _lit_ok(l)]
+                ctx.check(not bad, f'size:{c.name}:emission-unconditional:{n.func.attr}', gb.site(n),
+                          'bytes are generated (and their expressions evaluated, labels resolved, values range-checked) for every line of this class, '
+                          'whatever its mute state, address or content',
+                          f'{unparse(n)[:60]} happens only when {describe_facts(fcl)}: the line reserves space but emits nothing, and its labels and values are never checked')
+    if n_sites < 10:
+        ctx.err('size:emission-sites', '-', 'at least 10 emission / evaluation sites in generate_bytes implementations', f'{n_sites}')
+
     # helper: the multiplicity M in  self._bytes.extend([x] * M)  /  the list in extend(<list>)
     def extend_args(fn):
         out = []
@@ -507,6 +546,8 @@ MUTANTS = [
             if lobj.address is None:''', 'C02.2'),
     V('c02-global-cursor', _E, 'lobj.set_start_address(lobj.memory_zone.current_address)',
       'lobj.set_start_address(memzone_manager.global_zone.current_address)', 'C02.1'),
+    V('c02-muted-instruction-not-generated', 'assembler/line_object/instruction_line.py', '        self._bytes.extend(self._assembled_instruction.get_bytes(', '        if self.is_muted:\n            return\n        self._bytes.extend(self._assembled_instruction.get_bytes(', 'C02.5'),
+    V('c02-fill-only-when-addressed', 'assembler/line_object/directive_line/fill_data.py', "        self._bytes.extend([(self._value) & 0xFF]*self._count)", "        if self.address:\n            self._bytes.extend([(self._value) & 0xFF]*self._count)", 'C02.5'),
     V('c02-generate-in-pass1', _E, '''            if isinstance(lobj, LabelLine) and not lobj.is_constant:
                 lobj.label_scope''', '''            if isinstance(lobj, LineWithBytes):
                 lobj.generate_bytes()
